@@ -73,10 +73,13 @@ AttemptHi(s, t, tr) ==
   IN t + Max(capped, base)
 
 (* ---- server selection (C09) ------------------------------------------------ *)
-MinFails == CHOOSE n \in {srv[s].fails : s \in DOMAIN srv} : \A s \in DOMAIN srv : srv[s].fails >= n
-Best == {s \in DOMAIN srv : srv[s].fails = MinFails}
-FirstBest == CHOOSE s \in Best : \A s2 \in Best : srv[s].idx <= srv[s2].idx   \* configuration order
-FreshChoiceOk(s) == IF cfg.rotate = 1 THEN s \in Best ELSE s = FirstBest
+MinFailsIn(sv) == CHOOSE n \in {sv[s].fails : s \in DOMAIN sv} : \A s \in DOMAIN sv : sv[s].fails >= n
+BestIn(sv) == {s \in DOMAIN sv : sv[s].fails = MinFailsIn(sv)}
+FirstBestIn(sv) == CHOOSE s \in BestIn(sv) : \A s2 \in BestIn(sv) : sv[s].idx <= sv[s2].idx   \* configuration order
+FreshChoiceOkIn(sv, s) == IF cfg.rotate = 1 THEN s \in BestIn(sv) ELSE s = FirstBestIn(sv)
+Best == BestIn(srv)
+FirstBest == FirstBestIn(srv)
+FreshChoiceOk(s) == FreshChoiceOkIn(srv, s)
 MaxTries == NSrv * cfg.tries
 
 (* ---- queries ----------------------------------------------------------------- *)
@@ -92,7 +95,8 @@ Requeued(rec, inc, err) ==
      ELSE [rec EXCEPT !.st = "ending", !.try = tr, !.err = e,
                       !.endst = IF e = "" THEN "ETIMEOUT" ELSE e, !.endrc = -1]
 
-FailServer(s) == [srv EXCEPT ![s].fails = @ + 1, ![s].nextRetry = now + cfg.retrydelay]
+FailServerIn(sv, s) == [sv EXCEPT ![s].fails = @ + 1, ![s].nextRetry = now + cfg.retrydelay]
+FailServer(s) == FailServerIn(srv, s)
 
 (* status a query-style entry point reports for an accepted final answer *)
 MapStatus(api, rcode, an) ==
